@@ -12,8 +12,13 @@ network with super-node labels = Q of the input network with composed labels).  
 returned q >= Qref(start) - 1e-10, hierarchical q strictly increasing (returned list and recomputed values), and the output fed back as
 the start (real un-woven routine, seeded order) is not lowered.
 
+A run that ends in BCTParamError ("infinite loop" guard) or exceeds the draw cap returns nothing: the end-to-end clauses do not apply and
+the case is skipped and counted, but a move the real code made before giving up whose claimed gain is not the exact change of Q (or that
+lowers Q) is still reported (witness field run_ended_with).  An accepted move may leave Q unchanged within 1e-11 (the property's
+tolerance): accepting zero-gain moves is property-preserving.
+
 Violation keys:  <function>/<clause>[/hierarchy | /level>=2][/directed-W  (after a first class: +directed-W)]
-  clauses  MOVE-claimed-gain-equals-exact-dQ[/level>=2], MOVE-accepted-move-raises-Q[/level>=2], POST-Q-not-below-start, POST-returned-q-not-below-start,
+  clauses  MOVE-claimed-gain-equals-exact-dQ[/level>=2], MOVE-accepted-move-does-not-lower-Q[/level>=2], POST-Q-not-below-start, POST-returned-q-not-below-start,
            POST-feedback-not-lower, POST-hierarchy-q-strictly-increasing, POST-hierarchy-Q-strictly-increasing,
            POST-hierarchy-first-level-not-below-singletons, RAISES-<Exception>
 """
